@@ -11,7 +11,7 @@ import io
 import itertools
 
 from ..monitors import contracts
-from ..monitors.reach import Reach
+from ..monitors.reach import Reach, opt
 
 ID = "C09"
 RULE = (
@@ -398,9 +398,9 @@ def run(shard, rec, rng):
 
     install(W)
     LS = W["LimitedStream"]
-    reach = Reach(rec, {"LimitedStream.readinto": vars(LS)["readinto"], "LimitedStream.readall": LS.readall, "LimitedStream.exhaust": LS.exhaust,
-                        "LimitedStream.on_exhausted": LS.on_exhausted, "LimitedStream.on_disconnect": LS.on_disconnect,
-                        "get_input_stream": W["get_input_stream"], "get_content_length": SU.get_content_length})
+    reach = Reach(rec, {"LimitedStream.readinto": opt(lambda: vars(LS)["readinto"]), "LimitedStream.readall": opt(lambda: LS.readall), "LimitedStream.exhaust": opt(lambda: LS.exhaust),
+                        "LimitedStream.on_exhausted": opt(lambda: LS.on_exhausted), "LimitedStream.on_disconnect": opt(lambda: LS.on_disconnect),
+                        "get_input_stream": opt(lambda: W["get_input_stream"]), "get_content_length": opt(lambda: SU.get_content_length)})
     cfg = TIERS[shard["_tier"]]
     if shard["kind"] == "input_stream":
         run_input_stream(W, rec)
